@@ -259,7 +259,9 @@ class CallTracer:
         if trace is None:
             return
         elif last_opcode == YIELD_VALUE_OPCODE:
-            trace.add_yield_type(typ)
+            # A coroutine suspending on an await is not a yield
+            if not frame.f_code.co_flags & inspect.CO_COROUTINE:
+                trace.add_yield_type(typ)
         else:
             if last_opcode in RETURN_OPCODES:
                 trace.return_type = typ
